@@ -13,7 +13,7 @@ import json
 import os
 import random
 
-from . import common, lexlib
+from . import common, lexlib, c09_audit
 from .c14 import rejected_of
 from .common import log
 
@@ -45,7 +45,17 @@ RULE_TEXT = (
     "(plus boundary code points, leading zeros) x {string, character, inside a string}; concatenations of 2-3 adjacent string "
     "literals over 6 parts x 4 separators. For each the rule yields: rejected with code / accepted with in-range flag and the "
     "w-bit two's complement value / decoded bytes. Every case is compiled by the real compiler and, if accepted, executed; the "
-    "printed decimal, codes and L1142 are compared. Non-trivial = distinct literal spellings in distinct contexts that are not zero/one.")
+    "printed decimal, codes and L1142 are compared. Non-trivial = distinct literal spellings in distinct contexts that are not zero/one. "
+    "Dimension audit (further Gen families of Literals.tla, replayed by checks/c09_audit.py): the VALUE that arrives in 12 syntactic "
+    "positions (constant, element of a constant / local array, argument, return value, structure member, assignment, operand of + and "
+    "of ==, cast operand, direct print argument, nested blocks) x 9 types x {max, a width-filling in-between value, 2^64-1 / 2^64 for "
+    "128-bit types} x {decimal, hex} and negated {min, in-between}; the literal as index and as array length (|:[N]u8| = N up to 2^31-1; "
+    "lengths above 2^64-1 must not be accepted silently); string / character literals (all \\xhh, named escapes, \\u{...}) as local "
+    "variable, constant and direct print argument (raw standard output), characters as argument / constant / element / comparison operand; "
+    "string literals of 255..65537 bytes (7 units; lemma bytes(u^k x^p) = bytes(u)^k x^p checked by TLC for k<=3); 4-5 adjacent pieces, "
+    "separators with comments and CRLF; the lint for negated literals in 12 positions; the literal as the last token but one of the file x "
+    "4 endings; >256 (thorough >65536) string constants in one module, distinct and identical; the same literals in two modules, both file orders. "
+    "Random literals stand in 6 positions.")
 
 ASSUMPTIONS = [
     "TLC's evaluation of spec/Literals.tla (PenneLex + Wide) is the oracle; the conversion limbs <-> decimal text in Python is trusted",
@@ -58,6 +68,10 @@ ASSUMPTIONS = [
     "unsigned context (E550 documents unary minus on unsigned operands as invalid; only 'not silently altered' is demanded); "
     "\\u{...} with more than six digits; the run-time value of an out-of-range literal (it is announced by L1142)",
     "a literal that the rule rejects is put into a program of its own, because the compiler stops at the first lexical error",
+    "dimension audit: print! (undocumented) is assumed to write the bytes of a string literal argument; a string with an embedded NUL in "
+    "print position is unconstrained (observed: output stops at the NUL); an array length of 2^32..2^64-1 ends with an internal error of "
+    "the compiler (C02's open finding), which is noisy and therefore no matter of this property; the families 'many literals' / 'two "
+    "modules' arrange literals that TLC judged one by one (the rule is context-free: Value is a function of the spelling and the type)",
 ]
 
 
@@ -129,7 +143,7 @@ POS_TEMPLATES = {
 
 def pos_program(case):
     tpl, line = POS_TEMPLATES[case["pos"]]
-    return tpl.replace("LIT", lit_text(case)).replace("T", case["t"]), line
+    return tpl.replace("LIT", ("-" if case.get("neg") else "") + lit_text(case)).replace("T", case["t"]), line
 
 
 def describe(case):
@@ -137,7 +151,9 @@ def describe(case):
         lit = ("-" if case["neg"] else "") + lit_text(case)
         return ("var x = %s;" % lit) if case["sfx"] else ("var x: %s = %s;" % (case["t"], lit))
     if case["fam"] == "pos":
-        return "%s position, %s: %s" % (case["pos"], case["t"], lit_text(case))
+        return "%s position, %s: %s" % (case["pos"], case["t"], ("-" if case.get("neg") else "") + lit_text(case))
+    if case["fam"] in ("posv", "idx", "alen", "strp", "long"):
+        return c09_audit.describe(case)
     return lexlib.esc(bytes(case["lit"]))
 
 
@@ -258,9 +274,8 @@ def run_programs(progs, tag):
     """progs: list of (source, run) -> list of observations"""
     inp = os.path.join(common.WORK, "C09-prog-%s.ndjson" % tag)
     outp = os.path.join(common.WORK, "C09-out-%s.ndjson" % tag)
-    common.write_ndjson(inp, [{"src": s, "run": r} for s, r in progs])
-    common.pvh(["lit", inp, outp], exe_name="pvh_lex", timeout=3000)
-    obs = common.read_ndjson(outp)
+    # (a compiler process that dies -- LLVM aborts on broken IR -- is an observation of the program that kills it)
+    obs = c09_audit.run_rows([{"src": s, "run": r} for s, r in progs], inp, outp)
     if len(obs) != len(progs):
         raise common.ToolError("lit harness returned %d results for %d programs" % (len(obs), len(progs)))
     return obs
@@ -396,6 +411,10 @@ def run(rep, tier, seed, selftest):
     if accept:
         k = (len(accept) * 5) // 7
         samples.append({"case": accept[k], "program_line": str_statement(accept[k]), "printed": res[k][1]})
+    # ---- dimension audit: value by position, index / array length, strings by position, long strings,
+    # ---- many literals in one module, the same literals in two modules (checks/c09_audit.py) -----
+    audit_replayed, audit_cov = c09_audit.run(rep, tier, cases, report, nontrivial, samples)
+    replayed += audit_replayed
     # ---- impl -> spec: random literals "in between", validated by TLC (Trace_Literals) ----------
     nprog = RANDOM_PROGRAMS[tier]
     prefix = os.path.join(common.WORK, "C09-rand")
@@ -473,6 +492,7 @@ def run(rep, tier, seed, selftest):
         selftests["wrong_string_byte_detected"] = bool(judge_str(bad, o, o.get("stdout", "").split("\n")[0]))
         selftests["unmodified_string_clean"] = judge_str(s, o, o.get("stdout", "").split("\n")[0]) == []
         selftests.update(trace_selftests)
+        selftests.update(c09_audit.selftest(cases))
         log("[selftest] %s" % json.dumps(selftests))
         for name, ok in selftests.items():
             if not ok:
@@ -501,6 +521,7 @@ def run(rep, tier, seed, selftest):
         "integer_cases": len(ints),
         "string_char_cases": len(strs),
         "position_cases": len(poss),
+        "dimension_audit": audit_cov,
         "verdict_classes": dict(classes),
         "random_literals_recorded": rand_total,
         "random_literals_accepted_by_tlc": rand_ok,
@@ -528,6 +549,21 @@ def replay(path):
         return 0
     if not case:
         print(json.dumps(d, indent=1)[:3000])
+        return 0
+    if case["fam"] in ("posv", "idx", "alen", "strp", "long", "arranged"):
+        print("rule   :", json.dumps({k: v for k, v in case.items() if k not in ("lit", "unit", "ubytes")}))
+        print("expects:", det.get("expected"))
+        print("case   :", c09_audit.describe(case) if case["fam"] != "arranged" else case["what"])
+        if case["fam"] in ("posv", "idx", "alen", "strp"):
+            parts = {"posv": c09_audit.posv_parts, "idx": c09_audit.idx_parts, "alen": c09_audit.alen_parts,
+                     "strp": c09_audit.strp_parts}[case["fam"]](case, 0)
+            prelude = DUMP_FN if case.get("at") in ("var", "const") else c09_audit.SHOW_FN if case.get("at") == "chrarg" else ""
+            src = c09_audit.program([parts], prelude)
+            for i, l in enumerate(src.split("\n"), 1):
+                print("%3d | %s" % (i, l))
+            print("observed now:", json.dumps(c09_audit.run_raw([src], "replay")[0]))
+        else:
+            print("observed:", json.dumps(det.get("observed")))
         return 0
     if case["fam"] == "int":
         src, _ = int_program([case])
